@@ -51,6 +51,8 @@ class time_limit:
         def on_alarm(signum, frame):
             raise _TimeUp()
         try:
+            import time
+            self.t0 = time.monotonic()
             self.old = signal.signal(signal.SIGALRM, on_alarm)
             self.prev = signal.setitimer(signal.ITIMER_REAL, self.seconds)
             self.armed = True
@@ -64,11 +66,20 @@ class time_limit:
             self.signal.signal(self.signal.SIGALRM, self.old)
             # re-arm an outer alarm (the check's own budget) if there was one
             if self.prev and self.prev[0] > 0:
-                self.signal.setitimer(self.signal.ITIMER_REAL, max(self.prev[0] - self.seconds, 1.0))
+                import time
+                elapsed = time.monotonic() - self.t0
+                self.signal.setitimer(self.signal.ITIMER_REAL, max(self.prev[0] - elapsed, 1.0))
         return False
 
 
+_TIMEOUTS = [0]
+
+
 def _limit_for(text):
+    # once several inputs of this process have timed out the implementation is already known not to
+    # terminate; the remaining inputs get a short limit so that the check still finishes and reports
+    if _TIMEOUTS[0] >= 4:
+        return 0.25 + len(text) / 5000.0
     return 2.0 + len(text) / 1000.0
 
 
@@ -77,6 +88,7 @@ def impl_tok(text, pad):
         with time_limit(_limit_for(text)):
             toks = T.Tokenizer(exclude_padding=not pad).tokenize(text)
     except _TimeUp:
+        _TIMEOUTS[0] += 1
         return ("internal", "Timeout")
     except ValueError as e:
         return classify_value_error(e)
@@ -90,6 +102,7 @@ def impl_parse(text):
         with time_limit(_limit_for(text)):
             tree = P.ExpressionParser().parse(text)
     except _TimeUp:
+        _TIMEOUTS[0] += 1
         return ("internal", "Timeout")
     except P.ParserException as e:
         name = type(e).__name__
